@@ -85,12 +85,15 @@ structure Sh where
   phase : Nat                   -- 0 before the first server restart
   blocked : Bool                -- a Connect sits in its critical section for ever (mutex never released)
   dials : List Nat              -- log: upstream indices in dial order
-  deriving Repr
+  deriving DecidableEq, Repr
 
 structure St where
   sh : Sh
   pcs : List Pc                 -- the local connections
   deriving Repr
+
+/-- a configuration whose upstreams behave the same before and after a restart -/
+def Cfg.simple (ms : Bool) (fwd : Fwd) (ks : List Kind) : Cfg := { mustSecure := ms, fwd := fwd, ups := ks.map (fun k => (k, k)) }
 
 def Sh.init : Sh := { conns := [], stored := none, phase := 0, blocked := false, dials := [] }
 def init : St := { sh := Sh.init, pcs := [] }
@@ -342,5 +345,51 @@ def handleWith (F : Facts) (toks : List String) : String :=
   | _ => "bad-op"
 
 def handle (toks : List String) : String := handleWith Facts.current toks
+
+/-! ### e2e predictions: `polnet …` (see go/harness/c16_polnet.go) -/
+
+def secureCarrier : String → Option Bool
+  | "tcp" | "ws" => some false
+  | "tcptls" | "starttls" | "wss" => some true
+  | _ => none
+
+def servedStr : Out → String
+  | .direct => "served" | .up _ => "served" | _ => "failed"
+
+def handlePolnetWith (F : Facts) (toks : List String) : String :=
+  match toks with
+  | ["cut", carrier] =>
+    match secureCarrier carrier with
+    | some sec =>
+      let c := Cfg.simple sec .absent [if sec then .okSecure else .okPlain]
+      let (s1, o1, _) := connect F c Sh.init true
+      let (s2, o2, _) := connect F c (envCut s1) true
+      s!"first={servedStr o1} after={servedStr o2} physical={s2.dials.length}"
+    | none => "bad-op"
+  | ["fwd", mode, carrier] =>
+    match secureCarrier carrier, (if mode = "ok" then some Fwd.ok else if mode = "dead" then some Fwd.dead else none) with
+    | some _, some fwd =>
+      let (s1, o1, _) := connect F (Cfg.simple false fwd [.okPlain]) Sh.init true
+      let by_ := match o1 with | .direct => "forward" | .up _ => "upstream" | _ => "nobody"
+      s!"by={by_} physical={s1.dials.length}"
+    | _, _ => "bad-op"
+  | ["first", bad, carrier] =>
+    let kind : Option (Kind × Bool) := match bad with
+      | "refused" => some (.refused, false) | "garbage" => some (.hsError, false)
+      | "silent" => some (.silent, false) | "silenttls" => some (.silent, false)
+      | "insecure" => some (.okPlain, true) | _ => none
+    match secureCarrier carrier, kind with
+    | some sec, some (k, ms) =>
+      if ms && !sec then "bad-op"
+      else
+        let c := Cfg.simple ms .absent [k, if sec then .okSecure else .okPlain]
+        let (s1, o1, _) := connect F c Sh.init true
+        let (s2, o2, _) := connect F c s1 true
+        -- physical connections the good upstream saw
+        s!"first={servedStr o1} second={servedStr o2} physical={(s2.dials.filter (· == 1)).length}"
+    | _, _ => "bad-op"
+  | _ => "bad-op"
+
+def handlePolnet (toks : List String) : String := handlePolnetWith Facts.current toks
 
 end SA.Policy
